@@ -59,11 +59,15 @@ class Ctx:
     def __init__(self, prop, tier, seed, replay=None):
         self.prop, self.tier, self.seed, self.replay = prop, tier, seed, replay
         self.t0 = time.time()
-        self.work = os.path.join(WORKROOT, prop)
+        # runs against an alternate tree (seeded changes, experiments) get their own scratch and replay directories so that they
+        # cannot disturb a run of the same check against /repo that is going on at the same time
+        alt = bool(os.environ.get("VERIF_REPO"))
+        self.work = os.path.join(WORKROOT, prop + ("_alt%d" % os.getpid() if alt else ""))
+        self.replay_dir = os.path.join(ROOT, "replay", ("_alt/" if alt else "") + prop)
         shutil.rmtree(self.work, ignore_errors=True)
         os.makedirs(self.work, exist_ok=True)
         if not replay:
-            shutil.rmtree(os.path.join(ROOT, "replay", prop), ignore_errors=True)
+            shutil.rmtree(self.replay_dir, ignore_errors=True)
         self.mc_results = []
         self.notes = []
         self.rng = random.Random(seed)
@@ -407,7 +411,7 @@ def classify(prop, rejects):
 
 # ------------------------------------------------------------------------------------------------
 def write_replay(ctx, rej):
-    d = os.path.join(ROOT, "replay", ctx.prop)
+    d = ctx.replay_dir
     os.makedirs(d, exist_ok=True)
     name = re.sub(r"[^A-Za-z0-9_.-]", "_", "%s__%s" % (rej["case"], rej.get("cfg", "")))[:150]
     p = os.path.join(d, name + ".json")
